@@ -71,6 +71,35 @@ fn main() {
             }
             ctx.write_result();
         }
+        "corpus" => {
+            // seed corpus for the libFuzzer targets: reference-encoded + canned files, and box encodings
+            let dir = PathBuf::from(a.get("dir").cloned().unwrap_or_else(|| "corpus".into()));
+            let ctx = Ctx::new("C06", tier, seed, 0, 1, &profile, std::env::temp_dir());
+            let rd = dir.join("reader_api");
+            let bd = dir.join("box_fixpoint");
+            std::fs::create_dir_all(&rd).unwrap();
+            std::fs::create_dir_all(&bd).unwrap();
+            for (i, b) in mp4verif::adv::bases(&ctx, 24).iter().enumerate() {
+                std::fs::write(rd.join(format!("base{:02}", i)), &b.bytes).unwrap();
+            }
+            let mut runner = mp4verif::gen::fixed_runner(3);
+            for (ki, k) in mp4verif::boxes::KINDS.iter().enumerate() {
+                for j in 0..4 {
+                    let spec = mp4verif::gen::draw(&mp4verif::boxes::strategy(k, 2), &mut runner);
+                    let mut v = vec![ki as u8];
+                    v.extend(spec.node().render());
+                    std::fs::write(bd.join(format!("{}-{}", k.trim(), j)), v).unwrap();
+                }
+            }
+            // dictionary of four-character codes
+            let mut dict = String::new();
+            for k in mp4verif::boxes::KINDS.iter().chain(["mdat", "free", "skip", "wide", "url ", "dref", "moof", "mfhd", "\\xa9nam", "\\xa9day", "covr", "desc", "mdir", "vide", "soun", "sbtl"].iter()) {
+                dict.push_str(&format!("\"{}\"\n", k));
+            }
+            dict.push_str("\"\\x00\\x00\\x00\\x01\"\n\"\\xff\\xff\\xff\\xff\"\n\"\\x00\\x00\\x00\\x00\"\n\"\\x00\\x00\\x00\\x08\"\n");
+            std::fs::write(dir.join("mp4.dict"), dict).unwrap();
+            println!("corpus written to {}", dir.display());
+        }
         "bench" => {
             let cx = mp4verif::adv::driver_context();
             let b = mp4verif::refmp4::movie::build(&mp4verif::adv::kitchen_sink(0)).bytes;
